@@ -41,6 +41,15 @@ some `i + k` not an index of `fr` -/
 def fill8 (fr : List UInt8) (k n : Nat) : Res FErr (List UInt8) :=
   if n = 0 ∨ (n ≤ 8 ∧ k + n ≤ fr.length) then .ok (pad8 ((fr.drop k).take n)) else .panic
 
+/-- `BxFrame::new_data(ExtendedId::new(id).unwrap(), Data::new(&f.data[0..f.data_len as usize]).unwrap())`: `ExtendedId::new`
+answers `None` for an identifier of more than 29 bits, the slice panics when `data_len` exceeds the array, `Data::new` answers
+`None` for more than 8 bytes (arguments are evaluated left to right) -/
+def canFrame (id : Nat) (f : Frame) : Res FErr CanFrame :=
+  if 2^29 ≤ id then .panic
+  else if f.data.length < f.dataLen then .panic
+  else if 8 < f.dataLen then .panic
+  else .ok { ext := true, id := id, rtr := false, dlc := f.dataLen, data := f.data.take f.dataLen }
+
 end Ross.Prim
 
 namespace Ross
